@@ -92,10 +92,17 @@ func c15GenType(tp *core.Tape, ti int) *c15type {
 			f.def = []string{"dflt", "7", "7", "7", "true", "1.5", "7", "['d1','d2']", "7", "[7]"}[f.kind]
 		}
 		f.required = f.def == "" && tp.Chance("required", 1, 6)
+		noname := tp.Chance("noname", 1, 6)
+		if noname {
+			f.key = f.name // a source tag without a name: the field's own name is the key
+		}
 		var tag []string
 		for _, s := range c15Sources {
 			if used[s] {
 				v := f.key
+				if noname {
+					v = ""
+				}
 				if f.required {
 					v += ",required"
 				}
@@ -235,7 +242,12 @@ func (r *c15req) build(t *c15type) (*protocol.Request, param.Params) {
 // c15Bind runs one bind and renders the outcome.
 func c15Bind(b binding.Binder, t *c15type, r *c15req, api int) string {
 	req, ps := r.build(t)
-	defer protocol.ReleaseRequest(req)
+	released := false
+	defer func() {
+		if !released {
+			protocol.ReleaseRequest(req)
+		}
+	}()
 	obj := reflect.New(t.rt)
 	var err error
 	func() {
@@ -264,6 +276,18 @@ func c15Bind(b binding.Binder, t *c15type, r *c15req, api int) string {
 		}
 		return "ERR " + msg
 	}
+	// the bound struct outlives the request: the request object is recycled and filled with another request
+	// before the result is looked at
+	protocol.ReleaseRequest(req)
+	released = true
+	junk := protocol.AcquireRequest()
+	junk.SetRequestURI("http://h/p?K0=JUNKJUNK&K1=JUNKJUNK&K2=JUNKJUNK&K3=JUNKJUNK&K4=JUNKJUNK&K5=JUNKJUNK")
+	for i := 0; i < 6; i++ {
+		junk.Header.Set(fmt.Sprintf("K%d", i), "JUNKJUNKJUNKJUNK")
+		junk.Header.SetCookie(fmt.Sprintf("K%d", i), "JUNKJUNKJUNKJUNK")
+	}
+	junk.SetBody([]byte(`{"K0":"JUNK","K1":"JUNK","K2":"JUNK","K3":"JUNK"}`))
+	defer protocol.ReleaseRequest(junk)
 	var sb strings.Builder
 	v := obj.Elem()
 	for i := 0; i < v.NumField(); i++ {
@@ -277,6 +301,18 @@ func c15Bind(b binding.Binder, t *c15type, r *c15req, api int) string {
 			continue
 		}
 		fmt.Fprintf(&sb, "%v;", f.Interface())
+	}
+	// ... and is the caller's: writing through its pointers and slices must not reach any later bind
+	for i := 0; i < v.NumField(); i++ {
+		f := v.Field(i)
+		switch {
+		case f.Kind() == reflect.Ptr && !f.IsNil() && f.Elem().CanInt():
+			f.Elem().SetInt(99)
+		case f.Kind() == reflect.Slice && f.Len() > 0 && f.Index(0).Kind() == reflect.String:
+			f.Index(0).SetString("scribbled")
+		case f.Kind() == reflect.Slice && f.Len() > 0 && f.Index(0).CanUint():
+			f.Index(0).SetUint(9)
+		}
 	}
 	return sb.String()
 }
